@@ -884,7 +884,7 @@ class LDAPServer(LDAPSession):
             ),
         )
         msg_id = self._send(msg)
-        self._search_requests.remove(msg_id)
+        self._search_requests.discard(msg_id)
         return msg_id
 
     def receive(
